@@ -11,22 +11,21 @@
 (* entries, nothing listed), "rich" (a document that ALREADY carries keywords - in the Info dictionary *)
 (* and in the catalog XMP metadata -, properties, page layout, page mode, viewer preferences and an     *)
 (* attachment before the first edit).  The harness builds the file from BaseDoc(base) byte by byte.     *)
-(* Mode "bfs": all histories of <= MaxLen steps over the actions of the families in Fams;             *)
+(* Mode "bfs": all histories of every exploration plan in QuickPlans (initial document, families, length); *)
 (* mode "sim" (-simulate): random histories of 1..MaxLen steps over all families.                     *)
 EXTENDS Doc, Json, Randomization
 
-CONSTANTS Mode,      \* "bfs" | "sim"
-          Fams,      \* bfs: families explored: "kw", "prop", "view", "att"
-          MaxLen,    \* longest history (bfs: on DeepBases, single-family beyond Mix steps; sim: 1..MaxLen)
-          Mix,       \* bfs: histories up to this length mix the families
-          Bases,     \* initial documents: "bare" (no Info dictionary), "info" (Info dictionary with standard entries)
-          DeepBases,
-          ShallowBases, \* bfs: initial documents explored for one step only
-          DeepFams,  \* bfs: families explored beyond Mix steps
-          Std,       \* TRUE: the property alphabet uses standard Info dictionary entries (Subject, Author)
+CONSTANTS Mode,      \* "bfs": the exploration plans QuickPlans, exhaustively | "sim": random histories (-simulate) over SimBases
+          MaxLen,    \* sim: histories of 1..MaxLen steps
           Emit
-VARIABLES base, hist, len
-vars == <<docvars, base, hist, len>>
+(* plan: what is explored from this initial document (bfs): [base, fams, len, mix, deep, std]                       *)
+(*   fams  families of actions: "kw", "prop", "view", "att", "vpall" (every value of every viewer preference)       *)
+(*   len   history length; histories longer than mix steps stay within one family of deep                          *)
+(*   std   TRUE: the property alphabet uses standard Info dictionary entries (Subject, Author) as names             *)
+VARIABLES plan, hist, len
+vars == <<docvars, plan, hist, len>>
+base == plan.base
+Std  == plan.std
 
 ---------------------------------------------------------------------------
 (* keyword tokens: text as passed to the API, the keywords it yields (the stored form is one string joined   *)
@@ -61,17 +60,45 @@ AnRemove == {1, 2, 5}
 (* the initial documents: how the file is laid out (Info dictionary? XMP metadata carrying the keywords?) and  *)
 (* the metadata state it already has                                                                           *)
 Empty0 == [kw |-> {}, props |-> EmptyFn, layout |-> "", mode |-> "", vp |-> EmptyFn, att |-> EmptyFn]
+(* ikw / xkw: the keywords recorded in the Info dictionary / in the pdf:Keywords element of the XMP metadata; *)
+(* the document's keywords (st.kw) are their union                                                           *)
+Doc0(info, xmp, ikw, xkw, st) == [info |-> info, xmp |-> xmp, ikw |-> ikw, xkw |-> xkw, st |-> [st EXCEPT !.kw = ikw \cup xkw]]
+RichSt == [props |-> Fn2("Custom", "orig value (1)", "My Key", "orig <U+00E4>"),
+           layout |-> "TwoColumnLeft", mode |-> "UseOutlines",
+           vp |-> Fn2("HideToolbar", "true", "Direction", "R2L"),
+           att |-> Fn1("orig.txt", Att("orig", "original")), kw |-> {}]
+(* a document that states a value for (almost) every viewer preference, UseOC and the printer preferences included *)
+VpFull == [x \in {"HideMenubar", "NonFullScreenPageMode", "Direction", "ViewArea", "PrintClip", "PrintScaling", "Duplex",
+                  "PickTrayByPDFSize", "NumCopies", "PrintPageRange"} |->
+             CASE x = "HideMenubar" -> "true" [] x = "NonFullScreenPageMode" -> "UseOC" [] x = "Direction" -> "R2L"
+               [] x = "ViewArea" -> "TrimBox" [] x = "PrintClip" -> "ArtBox" [] x = "PrintScaling" -> "None"
+               [] x = "Duplex" -> "DuplexFlipLongEdge" [] x = "PickTrayByPDFSize" -> "true" [] x = "NumCopies" -> "3"
+               [] x = "PrintPageRange" -> "1-2,4-6"]
 BaseDoc(b) ==
-  CASE b = "bare" -> [info |-> FALSE, xmp |-> FALSE, kwinfo |-> FALSE, st |-> Empty0]
-    [] b = "info" -> [info |-> TRUE, xmp |-> FALSE, kwinfo |-> FALSE, st |-> Empty0]
-    [] b = "xmpkw" -> \* the keywords live in the XMP metadata only
-                     [info |-> TRUE, xmp |-> TRUE, kwinfo |-> FALSE, st |-> [Empty0 EXCEPT !.kw = {"orig1", "orig two"}]]
-    [] b = "rich" -> [info |-> TRUE, xmp |-> TRUE, kwinfo |-> TRUE, st |->
-                        [kw |-> {"orig1", "orig two"},
-                         props |-> Fn2(PropKeys[1], "orig value (1)", PropKeys[4], "orig <U+00E4>"),
-                         layout |-> "TwoColumnLeft", mode |-> "UseOutlines",
-                         vp |-> Fn2("HideToolbar", "true", "Direction", "R2L"),
-                         att |-> Fn1("orig.txt", Att("orig", "original"))]]
+  CASE b = "bare"   -> Doc0(FALSE, FALSE, {}, {}, Empty0)
+    [] b = "info"   -> Doc0(TRUE, FALSE, {}, {}, Empty0)
+    [] b = "xmpkw"  -> Doc0(TRUE, TRUE, {}, {"orig1", "orig two"}, Empty0)          \* keywords in the XMP metadata only
+    [] b = "kwdiff" -> Doc0(TRUE, TRUE, {"orig1", "b"}, {"orig1", "orig two"}, Empty0)  \* Info and XMP keywords differ, overlapping
+    [] b = "rich"   -> Doc0(TRUE, TRUE, {"orig1", "orig two"}, {"orig1", "orig two"}, RichSt)
+    [] b = "vpfull" -> Doc0(TRUE, FALSE, {}, {}, [Empty0 EXCEPT !.vp = VpFull])
+
+(* every value of every viewer preference *)
+Bools == {"true", "false"}
+Boxes5 == {"MediaBox", "CropBox", "TrimBox", "BleedBox", "ArtBox"}
+VPDomain == [x \in {"HideToolbar", "HideMenubar", "HideWindowUI", "FitWindow", "CenterWindow", "DisplayDocTitle", "PickTrayByPDFSize",
+                    "NonFullScreenPageMode", "Direction", "ViewArea", "ViewClip", "PrintArea", "PrintClip", "PrintScaling", "Duplex",
+                    "NumCopies", "PrintPageRange"} |->
+               CASE x = "NonFullScreenPageMode" -> {"UseNone", "UseOutlines", "UseThumbs", "UseOC"}
+                 [] x = "Direction" -> {"L2R", "R2L"}
+                 [] x \in {"ViewArea", "ViewClip", "PrintArea", "PrintClip"} -> Boxes5
+                 [] x = "PrintScaling" -> {"None", "AppDefault"}
+                 [] x = "Duplex" -> {"Simplex", "DuplexFlipShortEdge", "DuplexFlipLongEdge"}
+                 [] x = "NumCopies" -> {"1", "3"}
+                 [] x = "PrintPageRange" -> {"1-2", "1-2,4-6"}
+                 [] OTHER -> Bools]
+VPPairs == {<<k, v>> : k \in DOMAIN VPDomain, v \in UNION {VPDomain[x] : x \in DOMAIN VPDomain}} \cap
+           UNION {{<<k, v>> : v \in VPDomain[k]} : k \in DOMAIN VPDomain}
+Routes == {"struct", "json"}       \* SetViewerPreferencesFile / SetViewerPreferencesFileFromJSONBytes
 
 ---------------------------------------------------------------------------
 SeqOfSet(S) == SetToSeq(S)
@@ -81,7 +108,7 @@ FamOf(op) == CASE op \in {"kw_add", "kw_remove"} -> "kw" [] op \in {"prop_add", 
 StepRec(op, keys, vals, aux) == [op |-> op, keys |-> keys, vals |-> vals, aux |-> aux, res |-> res', chk |-> TRUE,
                                  exp |-> Listing']
 Strip(h) == IF Mode = "sim" THEN h ELSE [i \in 1..Len(h) |-> [h[i] EXCEPT !.chk = FALSE, !.exp = <<>>]]
-Log(op, keys, vals, aux) == hist' = Append(Strip(hist), StepRec(op, keys, vals, aux)) /\ UNCHANGED <<base, len>>
+Log(op, keys, vals, aux) == hist' = Append(Strip(hist), StepRec(op, keys, vals, aux)) /\ UNCHANGED <<plan, len>>
 
 DoKwAdd(is) == LET ts == {KwToks[i] : i \in is} s == SeqOfSet(is) IN
                KwAdd(ts) /\ Log("kw_add", [j \in 1..Len(s) |-> KwToks[s[j]].text], <<>>, <<>>)
@@ -98,7 +125,8 @@ DoSetLayout(v) == SetLayout(v) /\ Log("layout_set", <<>>, <<v>>, <<>>)
 DoResetLayout  == ResetLayout /\ Log("layout_reset", <<>>, <<>>, <<>>)
 DoSetMode(v)   == SetMode(v) /\ Log("mode_set", <<>>, <<v>>, <<>>)
 DoResetMode    == ResetMode /\ Log("mode_reset", <<>>, <<>>, <<>>)
-DoSetVP(m)     == LET s == SeqOfSet(DOMAIN m) IN SetVP(m) /\ Log("vp_set", s, [j \in 1..Len(s) |-> m[s[j]]], <<>>)
+DoSetVP(m, rt) == LET s == SeqOfSet(DOMAIN m) IN
+                  SetVP(m) /\ Log(IF rt = "json" THEN "vp_setjson" ELSE "vp_set", s, [j \in 1..Len(s) |-> m[s[j]]], <<>>)
 DoResetVP      == ResetVP /\ Log("vp_reset", <<>>, <<>>, <<>>)
 
 DoAttAdd(m) == LET s == SeqOfSet(DOMAIN m) IN
@@ -119,8 +147,14 @@ NextProp ==
 NextView ==
   \/ \E v \in {"TwoColumnLeft", "SinglePage"} : DoSetLayout(v)
   \/ \E v \in {"UseOutlines", "FullScreen"} : DoSetMode(v)
-  \/ \E i \in 1..3 : DoSetVP(VPs[i])
+  \/ \E i \in 1..3 : DoSetVP(VPs[i], IF i = 2 THEN "json" ELSE "struct")
   \/ DoResetLayout \/ DoResetMode \/ DoResetVP
+(* first every single (preference, value) through both routes, then a few combinations on top of it *)
+NextVpAll ==
+  IF hist = <<>> THEN \E kv \in VPPairs, rt \in Routes : DoSetVP(Fn1(kv[1], kv[2]), rt)
+  ELSE \/ DoSetVP(VPs[2], "struct") \/ DoSetVP(VPs[3], "json") \/ DoSetVP(VPs[4], "struct") \/ DoResetVP
+       \/ DoSetVP(Fn2("NonFullScreenPageMode", "UseThumbs", "ViewClip", "BleedBox"), "json")
+       \/ DoSetVP(Fn2("Duplex", "Simplex", "PrintArea", "MediaBox"), "struct")
 NextAtt ==
   \/ \E n \in AnQuick, d \in {1, 2} : DoAttAdd(Fn1(AttNames[n], Att(AttData[d], AttDescs[((n + d) % 2) + 1])))
   \/ DoAttAdd(Fn2(AttNames[1], Att("text", ""), AttNames[2], Att("empty", AttDescs[2])))
@@ -137,7 +171,8 @@ NextSim ==
   \/ DoPropRemoveAll
   \/ \E v \in {RS(Layouts)} : DoSetLayout(v)
   \/ \E v \in {RS(Modes)} : DoSetMode(v)
-  \/ \E i \in {RS(1..Len(VPs))} : DoSetVP(VPs[i])
+  \/ \E kv \in {RS(VPPairs)}, kw \in {RS(VPPairs)}, rt \in {RS(Routes)} :
+        DoSetVP(IF RS(1..2) = 1 THEN Fn1(kv[1], kv[2]) ELSE Fn2(kv[1], kv[2], kw[1], kw[2]), rt)
   \/ \E r \in {RS(1..3)} : (r = 1 /\ DoResetLayout) \/ (r = 2 /\ DoResetMode) \/ (r = 3 /\ DoResetVP)
   \/ \E is \in {RandIdx(Len(AttNames))} :
         \/ DoAttAdd([x \in {AttNames[i] : i \in is} |-> Att(AttData[RS(1..4)], AttDescs[RS(1..2)])])
@@ -145,20 +180,35 @@ NextSim ==
         \/ DoAttExtract({AttNames[i] : i \in is})
   \/ \E r \in {RS(1..2)} : (r = 1 /\ DoAttRemoveAll) \/ (r = 2 /\ DoAttExtract({}))
 
-Init == /\ base \in Bases /\ hist = <<>>
-        /\ LET st == BaseDoc(base).st IN
+AllFams == {"kw", "prop", "view", "att"}
+Plan(b, fams, n, mix, deep, std) == [base |-> b, fams |-> fams, len |-> n, mix |-> mix, deep |-> deep, std |-> std]
+QuickPlans == {Plan("bare", AllFams, 2, 2, {}, FALSE),
+               Plan("info", AllFams, 1, 1, {}, FALSE),
+               Plan("rich", AllFams, 3, 2, {"kw", "prop"}, FALSE),
+               Plan("bare", {"prop"}, 2, 2, {}, TRUE),              \* standard Info entries as property names
+               Plan("xmpkw", {"kw", "prop"}, 2, 2, {}, FALSE),
+               Plan("kwdiff", {"kw", "prop"}, 2, 2, {}, FALSE),
+               Plan("bare", {"vpall"}, 2, 2, {}, FALSE),
+               Plan("vpfull", {"vpall"}, 2, 2, {}, FALSE)}
+SimBases == {"bare", "info", "rich", "xmpkw", "kwdiff", "vpfull"}
+
+Init == /\ hist = <<>>
+        /\ IF Mode = "sim" THEN \E b \in SimBases, n \in 1..MaxLen : plan = Plan(b, AllFams, n, n, {}, FALSE)
+                           ELSE plan \in QuickPlans
+        /\ len = plan.len
+        /\ LET st == BaseDoc(plan.base).st IN
              /\ pages = <<>> /\ nblank = 0 /\ res = "ok" /\ ext = {}
              /\ keywords = st.kw /\ props = st.props /\ layout = st.layout /\ mode = st.mode
              /\ vprefs = st.vp /\ attach = st.att
-        /\ len \in (IF Mode = "sim" THEN 1..MaxLen ELSE IF base \in DeepBases THEN {MaxLen} ELSE IF base \in ShallowBases THEN {1} ELSE {Mix})
-(* beyond Mix steps a history stays within one family *)
-FamOK(f) == f \in Fams /\ (Len(hist) >= Mix => f \in DeepFams /\ \A i \in 1..Len(hist) : FamOf(hist[i].op) = f)
+(* beyond plan.mix steps a history stays within one family of plan.deep *)
+FamOK(f) == f \in plan.fams /\ (Len(hist) >= plan.mix => f \in plan.deep /\ \A i \in 1..Len(hist) : FamOf(hist[i].op) = f)
 Next == /\ Len(hist) < len
         /\ IF Mode = "sim" THEN NextSim
            ELSE \/ FamOK("kw") /\ NextKw
                 \/ FamOK("prop") /\ NextProp
                 \/ FamOK("view") /\ NextView
                 \/ FamOK("att") /\ NextAtt
+                \/ FamOK("vpall") /\ NextVpAll
 Spec == Init /\ [][Next]_vars
 
 ---------------------------------------------------------------------------
@@ -166,6 +216,7 @@ Spec == Init /\ [][Next]_vars
 TypeOK == /\ keywords \subseteq UNION {KwToks[i].parts : i \in 1..Len(KwToks)}
           /\ DOMAIN props \subseteq ToSet(PropKeys) /\ DOMAIN attach \subseteq ToSet(AttNames)
           /\ layout \in Layouts \cup {""} /\ mode \in Modes \cup {""}
+          /\ \A k \in DOMAIN vprefs : k \in DOMAIN VPDomain /\ vprefs[k] \in VPDomain[k]
           /\ (hist # <<>> /\ hist[Len(hist)].op = "att_extract" => \A e \in ext : e.name \in DOMAIN attach /\ e.data = attach[e.name].data)
 (* an action only touches its own family *)
 Isolated ==
@@ -180,6 +231,7 @@ InitListing(b) ==
   LET st == BaseDoc(b).st IN
   [kw |-> SetToSeq(st.kw), props |-> FnList(st.props), layout |-> st.layout, mode |-> st.mode, vp |-> FnList(st.vp),
    att |-> SetToSeq({[name |-> n, desc |-> st.att[n].desc, data |-> st.att[n].data] : n \in DOMAIN st.att}), ext |-> <<>>]
-Case == [base |-> base, info |-> BaseDoc(base).info, xmp |-> BaseDoc(base).xmp, kwinfo |-> BaseDoc(base).kwinfo, init |-> InitListing(base), steps |-> hist]
+Case == [base |-> base, std |-> Std, info |-> BaseDoc(base).info, xmp |-> BaseDoc(base).xmp,
+         ikw |-> SetToSeq(BaseDoc(base).ikw), xkw |-> SetToSeq(BaseDoc(base).xkw), init |-> InitListing(base), steps |-> hist]
 EmitCase == Emit /\ hist # <<>> /\ (Mode = "sim" => Len(hist) = len) => PrintT(<<"CASE", ToJson(Case)>>)
 =============================================================================
